@@ -296,3 +296,10 @@ Definition ex_store : store :=
   mkStore [mkNode 10 1 1 1; mkNode 11 2 1 5; mkNode 12 1 2 4; mkNode 13 2 2 5; mkNode 14 1 3 5; mkNode 15 1 4 5;
            mkNode 16 1 5 5]
           [(10, 12, 1); (11, 13, 2); (12, 14, 2); (12, 15, 1); (14, 16, 2); (15, 16, 2)].
+
+(* a store with a cross-graph edge, as left by merge_nodes before the other graph's nodes are re-homed: graph 1 =
+   NetworkService 2 -connects- ConnectionPoint 1; graph 2 = Link 5 -connects- ConnectionPoint 6; and the edge
+   ConnectionPoint 1 (graph 1) -connects- Link 5 (graph 2) *)
+Definition cross_store : store :=
+  mkStore [mkNode 10 1 1 5; mkNode 11 1 2 4; mkNode 21 2 5 6; mkNode 22 2 6 5]
+          [(11, 10, 2); (10, 21, 2); (21, 22, 2)].
